@@ -29,7 +29,7 @@ func checkC(sc autocert.VerifC51Scenario) func(obs any) (string, string) {
 			if d != domainC {
 				return "concurrent GetCertificate: the CA received an order for a different name", fmt.Sprintf("%q: %d", d, r.NewOrders[d])
 			}
-			if r.NewOrders[d] > 1 {
+			if r.NewOrders[d]-r.PreOrders > 1 || (sc.Preload && r.NewOrders[d] > r.PreOrders) {
 				return "concurrent GetCertificate for one new name starts more than one issuance (new-order requests > 1)", fmt.Sprintf("new-orders=%d issued=%d callers=%d", r.NewOrders[d], r.Issued, sc.Callers)
 			}
 		}
@@ -98,6 +98,25 @@ func partC(c *vf.Ctx) {
 			Check:   checkC(sc),
 			Outcome: outcomeC,
 		})
+	}
+	// spellings of one name (same certificate key), and a certificate that is already cached
+	for _, k := range []struct {
+		name    string
+		sc      autocert.VerifC51Scenario
+		b, bThr int
+	}{
+		{"2 callers, spellings {name, upper case}, cache, policy", autocert.VerifC51Scenario{Callers: 2, WithCache: true, Policy: true, Domain: domainC, Names: []string{domainC, "NEW.Example.ORG"}}, 3, 4},
+		{"3 callers, spellings {name, trailing dot, mixed case}, no cache", autocert.VerifC51Scenario{Callers: 3, Domain: domainC, Names: []string{domainC, domainC + ".", "New.example.org"}}, 2, 3},
+		{"2 callers, certificate already cached by another Manager", autocert.VerifC51Scenario{Callers: 2, WithCache: true, Policy: true, Domain: domainC, Preload: true}, 3, 4},
+		{"3 callers, certificate already cached, spellings", autocert.VerifC51Scenario{Callers: 3, WithCache: true, Domain: domainC, Preload: true, Names: []string{domainC, domainC + ".", "NEW.example.org"}}, 2, 3},
+	} {
+		k := k
+		b := k.b
+		if c.Thorough {
+			b = k.bThr
+		}
+		scs = append(scs, schedx.Scenario{Name: "c: " + k.name + fmt.Sprintf(" bound=%d", b), Bound: b,
+			Body: func() any { return autocert.VerifC51Concurrent(k.sc) }, Check: checkC(k.sc), Outcome: outcomeC})
 	}
 	c.Assume("(c): package acme/autocert is instrumented (every mutex, RWMutex and go statement is a scheduling point); package acme and the fake CA run atomically between scheduling points; renewal timers (time.AfterFunc, >= 59 days) and context deadlines (5 min) are real-time timers that never fire during an execution; the tls-alpn-01 challenge is accepted by the fake CA without connecting back")
 	schedx.Explore(c, scs)
